@@ -79,3 +79,20 @@ func VerifWriterDeliver(ctx context.Context, w Writer, recipients []string, qoss
 	wr.send(ctx, recipients, qosses, p)
 	wr.mtx.Unlock()
 }
+
+// VerifScheduleWriter adapts a function to Writer: Schedule hands it the offset, Run and Send do nothing. The harness
+// puts it behind the real SchedulePublishes to observe what the scheduler hands over (Writer cannot be implemented
+// outside this package: its Run method names an unexported type).
+type verifScheduleWriter struct {
+	f func(ctx context.Context, offset uint64)
+}
+
+func (w verifScheduleWriter) Run(ctx context.Context, log messageLog) error { return nil }
+func (w verifScheduleWriter) Schedule(ctx context.Context, offset uint64)   { w.f(ctx, offset) }
+func (w verifScheduleWriter) Send(ctx context.Context, recipients []string, qosses []int32, p *packet.Publish) {
+}
+
+// VerifScheduleWriter returns a Writer whose Schedule calls f.
+func VerifScheduleWriter(f func(ctx context.Context, offset uint64)) Writer {
+	return verifScheduleWriter{f: f}
+}
